@@ -196,6 +196,85 @@ def check(cx):
             cx.verdict(sane or capcmp, r4, "%s#%d" % (f.id, i), c.where(), "bounded by %s" % ("min(.., payload len)" if sane else "the frame cap"),
                        "a count decoded from the wire reaches an allocation size unbounded (D15)")
 
+    # ---- C20.4b loops driven by a wire count -------------------------------------------------------------------------
+    r4b = cx.rule("C20.4b", "LOOP(taint): every decoder loop whose iteration count comes from the wire either consumes payload in each "
+                  "iteration (every path once round the loop passes a length-checked reader whose error leaves the decoder) or is "
+                  "dominated by a comparison of that count with a payload-length-derived bound whose failing arm leaves the decoder: "
+                  "a few bytes of garbage cannot buy millions of iterations/allocations", floor=3)
+    from axvlib.core import natural_loops
+    READERS = {"tcp::read_string_with_len", "tcp::read_string"}
+    for f in sorted(p.fns.values(), key=lambda x: x.id):
+        if not f.id.startswith("tcp::") or f.id.startswith("tcp::session") or f.root:
+            continue
+        srcs = {op_local({"c": c.dst}) for c in f.calls() if c.callee.endswith("::from_le_bytes")}
+        if not srcs:
+            continue
+        loops = natural_loops(f)
+        n = 0
+        for h, body in loops:
+            nx = [c for c in f.calls() if c.bb == h and c.defn == "std::iter::Iterator::next" and any("ops::Range<" in a for a in c.gargs)]
+            if not nx:
+                continue
+            rng = f.dep_closure(op_local(nx[0].args[0]))
+            ends = []
+            for b in f.blocks:
+                for st in b["stmts"]:
+                    if st["rv"].get("r") == "agg" and st["rv"].get("adt") == "std::ops::Range" and len(st["dst"]) == 1 and st["dst"][0] in rng:
+                        el = op_local(st["rv"]["o"][1])
+                        if el is not None:
+                            ends.append(el)
+            tainted = [e for e in ends if (f.dep_closure(e) | {e}) & srcs]
+            if not tainted:
+                continue
+            n += 1
+            tl = (f.dep_closure(tainted[0]) | {tainted[0]})
+            # (a) one trip round the loop without passing a consuming reader?
+            t = f.blocks[nx[0].term["to"]]["term"] if nx[0].term["to"] is not None else None
+            some = None
+            for bi, adt, m, oth, src in enum_switches(p, f):
+                if bi == nx[0].term["to"] and adt == "std::option::Option":
+                    some = m.get("Some", oth)
+            cons = {c.bb for c in f.calls() if c.bb in body and c.callee in READERS and (f.reachable(c.term["to"]) & f.err_blocks())}
+            free_trip = False
+            if some is not None:
+                seen_b, work = set(), [some]
+                while work:
+                    u = work.pop()
+                    if u in seen_b or u in cons or u not in body:
+                        continue
+                    seen_b.add(u)
+                    for v in f.succ(u):
+                        if v == h:
+                            free_trip = True
+                        elif not f.blocks[v]["cleanup"]:
+                            work.append(v)
+            # (b) a dominating comparison of the count with a payload-derived bound, one arm leaving the decoder
+            guarded = False
+            lens = {op_local({"c": c.dst}) for c in f.calls() if c.callee.endswith("::len")}
+            for bi, b in enumerate(f.blocks):
+                tm = b["term"]
+                if tm["t"] != "switch" or not f.dominates(bi, h) or bi == h:
+                    continue
+                sl = op_local(tm["o"])
+                if sl is None:
+                    continue
+                for b2 in f.blocks:
+                    for st in b2["stmts"]:
+                        if st["dst"] == [sl] and st["rv"].get("r") == "bin" and st["rv"]["op"] in ("Gt", "Ge", "Lt", "Le"):
+                            ops = [op_local(o) for o in st["rv"]["o"]]
+                            if None in ops:
+                                continue
+                            a_t = [bool((f.dep_closure(o) | {o}) & srcs & tl) for o in ops]
+                            a_l = [bool((f.dep_closure(o) | {o}) & lens) and not ((f.dep_closure(o) | {o}) & srcs & tl) for o in ops]
+                            if (a_t[0] and a_l[1]) or (a_t[1] and a_l[0]):
+                                arms = [x[1] for x in tm["targets"]] + [tm["otherwise"]]
+                                if any(h not in f.reachable(a) for a in arms):
+                                    guarded = True
+            cx.verdict((not free_trip) or guarded, r4b, "%s:loop#%d" % (f.id, n), f.where(),
+                       "each iteration consumes payload" if not free_trip else "count compared with a payload-derived bound first",
+                       "%s has a loop whose count comes from the wire and which can go round without consuming payload (e.g. zero "
+                       "columns, 4 billion rows in a 10-byte frame): memory and time are not bounded by the frame size (D38)" % f.id)
+
     # ---- C20.5 decoder panics / consumed length ------------------------------------------------------------------
     r5 = cx.rule("C20.5", "PANIC/FLOW: unwrap in the decoders occurs only on <[u8; N]>::try_from of a constant-width "
                  "range (budgeted per function); the consumed length returned by read_string_with_len derives from the "
